@@ -293,7 +293,7 @@ def mutated(ver, max_edits=3):
     return s()
 
 
-OPS = ("ins", "del", "rep", "confusable", "drop_field", "drop_mandatory", "dup_field", "dup_field_other_value", "swap_fields",
+OPS = ("ins", "del", "rep", "confusable", "encoded", "drop_field", "drop_mandatory", "dup_field", "dup_field_other_value", "swap_fields",
        "transplant", "empty_field", "surgery", "case", "value_of_other_metric", "strip_value", "extra_colon")
 
 
@@ -313,6 +313,17 @@ def apply_op(draw, ver, s, op):
             return s
         i = draw(st.integers(0, len(s) - 1))
         return s[:i] + draw(st.sampled_from(ALPHABET)) + s[i + 1:]
+    if op == "encoded":
+        # one or all occurrences of a character written in some ENCODING of it (URL, HTML, backslash, quoted-printable ...):
+        # what a decoder in front of the parser would turn back into a valid vector
+        if not s:
+            return s
+        i = draw(st.integers(0, len(s) - 1))
+        c = s[i]
+        enc = draw(st.sampled_from(encodings(c)))
+        if draw(st.integers(0, 3)) == 0:
+            return s.replace(c, enc)
+        return s[:i] + enc + s[i + 1:]
     if op == "confusable":
         conf = confusables()
         idx = [i for i, ch in enumerate(s) if ch in conf]
@@ -358,7 +369,7 @@ def apply_op(draw, ver, s, op):
             s.replace("CVSS:3.0/", ""), s.replace("CVSS:3.1/", ""), s.replace("CVSS:4.0/", ""),
             "CVSS:3.1/" + s, "CVSS:3.0/" + s, "CVSS:4.0/" + s, s.replace("/", "//", 1), s.replace(":", "::", 1),
             s.replace("/", " /", 1), s.replace(":", ": ", 1), s.replace("/", "\\", 1), s.replace("CVSS:", "CVSS: ", 1),
-            s.replace(".", ",", 1), s.replace("/", "", 1)]))
+            s.replace(".", ",", 1), s.replace("/", "", 1)] + [d % s for d in DECORATIONS]))
     elif op == "case":
         j = draw(st.integers(0, len(fs) - 1))
         fs[j] = draw(st.sampled_from([fs[j].lower(), fs[j].upper(), fs[j].title(), fs[j].swapcase()]))
@@ -374,6 +385,23 @@ def apply_op(draw, ver, s, op):
         j = draw(st.integers(0, len(fs) - 1))
         fs[j] = fs[j] + ":" + draw(st.sampled_from(["", "X", "N", "H"]))
     return "/".join(fs)
+
+
+NAMED_ENTITIES = {":": ("&colon;",), "/": ("&sol;", "&#x2F;"), ".": ("&period;",), "&": ("&amp;",), "<": ("&lt;",), " ": ("&nbsp;", "+", "%20")}
+
+
+def encodings(c):
+    """spellings of one character in common encodings"""
+    o = ord(c)
+    out = ["%%%02X" % o if o < 256 else "%%u%04X" % o, "%%%02x" % o if o < 256 else "%%u%04x" % o, "&#%d;" % o, "&#x%X;" % o, "&#%d" % o,
+           "\\x%02x" % o if o < 256 else "\\u%04x" % o, "\\u%04x" % o, "\\%03o" % o if o < 512 else "\\u%04x" % o, "=%02X" % o if o < 256 else "=?",
+           "%%25%02X" % o if o < 256 else "%%25u%04X" % o, "\\" + c, "^" + c]
+    out += list(NAMED_ENTITIES.get(c, ()))
+    return out
+
+
+DECORATIONS = ("CVSS2#%s", "CVSS:2.0/%s", "CVSS:2/%s", "CVSSv2#%s", "CVSS3#%s", "CVSS:3/%s", "CVSS4#%s", "CVSS:4/%s", "cvss:%s", "Vector: %s", "(%s)",
+               "[%s]", "\"%s\"", "'%s'", "<%s>", "`%s`", "%s.", "%s,", "%s;", "vector=%s", "%s#", "#%s", "%s?", "%s\x00", "\ufeff%s", "%s\r")
 
 
 def any_text(max_size=40):
